@@ -106,7 +106,7 @@ Inductive arg :=
 | AI (z : Z)        (* int, flag, mode, offset, time *)
 | AW.               (* an argument the model does not determine (buffer length of an inner Read) *)
 
-Inductive err :=
+Inductive werr :=
 | EErrno (n : N)    (* avfs.LinuxError value, through *PathError / *LinkError *)
 | EEOF
 | EInj (k : nat)    (* an error returned by the failure function *)
@@ -114,7 +114,7 @@ Inductive err :=
 | EStuck (t : N).   (* not a Go outcome: the model could not interpret the call
                        (1 unknown object, 2 unrecognised kind, 3 bad arguments, 4 out of fuel) *)
 
-Inductive val :=
+Inductive wval :=
 | VUnit
 | VTok (t : str)                    (* opaque printed value *)
 | VBytes (b : str)
@@ -126,11 +126,11 @@ Inductive val :=
 
 (* what a call returns: a value, an error or both (ReadAt), and - for Open,
    OpenFile, Create, CreateTemp, Sub - the identifier of the new object *)
-Record ans := mkAns { a_val : val; a_err : option err; a_obj : option nat }.
+Record ans := mkAns { a_val : wval; a_err : option werr; a_obj : option nat }.
 
-Definition ans_err (e : err) : ans := mkAns VUnit (Some e) None.
+Definition ans_err (e : werr) : ans := mkAns VUnit (Some e) None.
 Definition ans_stuck (n : N) : ans := ans_err (EStuck n).
-Definition ans_ok (v : val) : ans := mkAns v None None.
+Definition ans_ok (v : wval) : ans := mkAns v None None.
 
 Inductive okind := OVfs | OFile.
 
@@ -189,15 +189,15 @@ Inductive errsrc :=
 | ES_OpNotPermitted    (* vfs.errOpNotPermitted / avfs.ErrOpNotPermitted (EPERM) *)
 | ES_PermDeniedOrWinPrivilege. (* errPermDenied, on Windows ErrWinPrivilegeNotHeld (Symlink) *)
 
-Definition err_of_src (e : errsrc) : err :=
+Definition err_of_src (e : errsrc) : werr :=
   match e with
   | ES_PermDenied => EErrno 13
   | ES_OpNotPermitted => EErrno 1
   | ES_PermDeniedOrWinPrivilege => EErrno 13
   end.
 
-(* the permission class: what errors.Is(err, fs.ErrPermission) accepts for avfs.LinuxError *)
-Definition perm_class (e : err) : bool :=
+(* the permission class: what errors.Is(werr, fs.ErrPermission) accepts for avfs.LinuxError *)
+Definition perm_class (e : werr) : bool :=
   match e with EErrno 13 | EErrno 1 => true | _ => false end.
 
 Inductive fpfield := FpOp | FpPath | FpNewPath | FpPerm | FpFlag | FpUid | FpGid | FpSize | FpATime | FpMTime.
@@ -217,7 +217,7 @@ Inductive kind :=
 | KSelfOpenFile (flag perm : Z)          (* return vfs.OpenFile(name, flag, perm) - the wrapper's own OpenFile *)
 | KSelfWrite                             (* return f.Write([]byte(s)) - the wrapper's own Write *)
 | KConsult (fn : fnvfs) (flds : list (fpfield * nat)) (k : kind)
-                                         (* err := failFunc(fn, params); if err != nil return err; then k *)
+                                         (* werr := failFunc(fn, params); if werr != nil return werr; then k *)
 | KComposite (c : comp)                  (* avfs.C(vfs, args): generic composite over the wrapper's primitives *)
 | KUnrecognised.                         (* the translator did not recognise the body: fails every table theorem *)
 
@@ -235,7 +235,7 @@ Definition kind_of (T : table) (m : meth) : kind :=
 
 (* the failure function: sees the ids consulted so far, the id and the FailParam fields *)
 Definition fparams := list (fpfield * arg).
-Definition ffun := list fnvfs -> fnvfs -> fparams -> option err.
+Definition ffun := list fnvfs -> fnvfs -> fparams -> option werr.
 
 Definition ok_func : ffun := fun _ _ _ => None.
 
@@ -280,12 +280,12 @@ Section Semantics.
 
   (* result of one client call: the answer (a returned object carries the client's id)
      and the ids consulted during the call, each with "did it fail" *)
-  Record cres := mkRes { r_ans : ans; r_cons : list (fnvfs * bool) }.
+  Record wres := mkRes { r_ans : ans; r_cons : list (fnvfs * bool) }.
 
   Definition fresh (os : objs) : nat := S (fold_right (fun p m => Nat.max (fst p) m) 0 os).
 
   (* forward to the base; register a returned object under [bind] *)
-  Definition forward (wrap : bool) (w : world) (o : wobj) (m : meth) (a : list arg) (bind : nat) : cres * world :=
+  Definition forward (wrap : bool) (w : world) (o : wobj) (m : meth) (a : list arg) (bind : nat) : wres * world :=
     let '(an, s') := base_step (w_base w) (wo_base o) m a in
     match a_obj an, returns_obj m with
     | Some nb, Some k =>
@@ -294,17 +294,17 @@ Section Semantics.
     | _, _ => (mkRes (mkAns (a_val an) (a_err an) None) [], mkWorld s' (w_objs w) (w_hist w))
     end.
 
-  Definition stuck (n : N) (w : world) : cres * world := (mkRes (ans_stuck n) [], w).
+  Definition stuck (n : N) (w : world) : wres * world := (mkRes (ans_stuck n) [], w).
 
-  Definition add_cons (c : fnvfs * bool) (r : cres * world) : cres * world :=
+  Definition add_cons (c : fnvfs * bool) (r : wres * world) : wres * world :=
     (mkRes (r_ans (fst r)) (c :: r_cons (fst r)), snd r).
 
   Definition push_hist (fn : fnvfs) (w : world) : world :=
     mkWorld (w_base w) (w_objs w) (w_hist w ++ [fn]).
 
   (* level 0: kinds that do not re-enter the wrapper; composites through [cb] *)
-  Fixpoint run0 (cb : comp -> world -> list arg -> nat -> cres * world)
-           (k : kind) (w : world) (o : wobj) (m : meth) (a : list arg) (bind : nat) : cres * world :=
+  Fixpoint run0 (cb : comp -> world -> list arg -> nat -> wres * world)
+           (k : kind) (w : world) (o : wobj) (m : meth) (a : list arg) (bind : nat) : wres * world :=
     match k with
     | KFwd | KPure => forward false w o m a bind
     | KFwdWrap => forward true w o m a bind
@@ -326,12 +326,12 @@ Section Semantics.
     | KSelfOpenFile _ _ | KSelfWrite | KUnrecognised => stuck 2 w
     end.
 
-  Definition no_comp : comp -> world -> list arg -> nat -> cres * world := fun _ w _ _ => stuck 2 w.
+  Definition no_comp : comp -> world -> list arg -> nat -> wres * world := fun _ w _ _ => stuck 2 w.
 
   (* level 1: one method call on a wrapped object, composites excluded (the
      "primitives" the composites are built on) *)
-  Definition run1 (cb : comp -> world -> list arg -> nat -> cres * world)
-             (w : world) (o : wobj) (m : meth) (a : list arg) (bind : nat) : cres * world :=
+  Definition run1 (cb : comp -> world -> list arg -> nat -> wres * world)
+             (w : world) (o : wobj) (m : meth) (a : list arg) (bind : nat) : wres * world :=
     match kind_of T m with
     | KSelfOpenFile fl p =>
         match a with
@@ -343,15 +343,15 @@ Section Semantics.
     end.
 
   (* a call on any object the client holds: raw objects go straight to the base *)
-  Definition call_obj (cb : comp -> world -> list arg -> nat -> cres * world)
-             (w : world) (id : nat) (m : meth) (a : list arg) (bind : nat) : cres * world :=
+  Definition call_obj (cb : comp -> world -> list arg -> nat -> wres * world)
+             (w : world) (id : nat) (m : meth) (a : list arg) (bind : nat) : wres * world :=
     match olookup id (w_objs w) with
     | None => stuck 1 w
     | Some o => if wo_wrapped o then run1 cb w o m a bind else forward false w o m a bind
     end.
 
   (* level 2: run a composite over the level-1 primitives *)
-  Fixpoint run_prog (p : prog) (w : world) (self bind : nat) (acc : list (fnvfs * bool)) : cres * world :=
+  Fixpoint run_prog (p : prog) (w : world) (self bind : nat) (acc : list (fnvfs * bool)) : wres * world :=
     match p with
     | PRet a => (mkRes a acc, w)
     | PCall osel m a result k =>
@@ -364,11 +364,11 @@ Section Semantics.
   Record ccall := mkCall { c_obj : nat; c_meth : meth; c_args : list arg; c_bind : nat }.
 
   (* the step of the wrapped world *)
-  Definition wstep (w : world) (c : ccall) : cres * world :=
+  Definition wstep (w : world) (c : ccall) : wres * world :=
     call_obj (fun cp w' a bind => run_prog (comp_prog cp a) w' (c_obj c) bind []) w
              (c_obj c) (c_meth c) (c_args c) (c_bind c).
 
-  Fixpoint wrun (w : world) (cs : list ccall) : list cres * world :=
+  Fixpoint wrun (w : world) (cs : list ccall) : list wres * world :=
     match cs with
     | [] => ([], w)
     | c :: r => let '(x, w') := wstep w c in
